@@ -10,6 +10,7 @@ vc.expr's division hook).
 """
 from __future__ import annotations
 
+import math
 from fractions import Fraction
 from typing import Dict, List, Optional, Tuple
 
@@ -351,6 +352,16 @@ class Ring:
                     stack.extend(kids)
                     continue
                 name = x.args[0]
+                if name == "sqrt":
+                    # sqrt of an argument that normalises to a non-negative rational square is that rational
+                    ra = memo[x.args[1].id]
+                    cv = self._const_of(ra)
+                    if cv is not None and cv >= 0:
+                        rn, rd = math.isqrt(cv.numerator), math.isqrt(cv.denominator)
+                        if rn * rn == cv.numerator and rd * rd == cv.denominator:
+                            memo[x.id] = Rat(p_const(Fraction(rn, rd)), {})
+                            stack.pop()
+                            continue
                 key = (op, name) + tuple(self.key(memo[a.id]) for a in x.args[1:])
                 known = key in self.atoms
                 at = self.atom(key, x)
@@ -396,7 +407,9 @@ class Ring:
         return self.is_zero(E.sub(a, b))
 
     def const_value(self, e: Expr) -> Optional[Fraction]:
-        r = self.normal(e)
+        return self._const_of(self.normal(e))
+
+    def _const_of(self, r: "Rat") -> Optional[Fraction]:
         num = self.reduce(r.num) if self.relations else r.num
         if not num:
             return Fraction(0)
